@@ -7,6 +7,7 @@ pub mod c04;
 pub mod c05;
 pub mod c06;
 pub mod c07;
+pub mod c08;
 pub mod c09;
 pub mod c11;
 pub mod c12;
@@ -24,6 +25,7 @@ pub fn run(id: &str, tier: Tier) -> i32 {
         "C05" => c05::run(tier),
         "C06" => c06::run(tier),
         "C07" => c07::run(tier),
+        "C08" => c08::run(tier),
         "C09" => c09::run(tier),
         "C11" => c11::run(tier),
         "C12" => c12::run(tier),
@@ -48,6 +50,7 @@ pub fn replay(id: &str, path: &str) -> i32 {
             "C05" => c05::replay(case),
             "C06" => c06::replay(case),
             "C07" => c07::replay(case),
+            "C08" => c08::replay(case),
             "C09" => c09::replay(case),
             "C11" => c11::replay(case),
             "C12" => c12::replay(case),
